@@ -53,6 +53,9 @@ def points(tier: str) -> List[Dict[str, Any]]:
     for allow, chain, age in itertools.product((False, True), (1, 2), (1_350_000, 2_700_000, 4_050_000, 4_495_000)):
         pts.append({"kind": "peer", "mix": "v4", "ttls": "default", "allow": allow, "tc": None, "c2": None, "chain": chain,
                     "chain_age_ms": age})
+    for allow, chain in itertools.product((False, True), (1, 2)):
+        pts.append({"kind": "peer", "mix": "v4", "ttls": "default", "allow": allow, "tc": None, "c2": None, "chain": chain,
+                    "respelled": True})
     # no host name given: the library then uses the instance name as host name - which instance name, if it renames?
     for mix, allow, tc in itertools.product(("v4", "dual"), (False, True), (None, -100, 100, 300)):
         pts.append({"kind": "peer", "mix": mix, "ttls": "default", "allow": allow, "tc": tc, "c2": None, "chain": 0,
@@ -210,6 +213,13 @@ def run_point(p: Dict[str, Any], verbose: bool = False) -> Tuple[Optional[Dict[s
         expect_exc = False
         ambiguous = False
         if p["kind"] == "peer":
+            if p.get("respelled"):
+                # the owner first announced its name in another letter case, and afterwards in exactly our spelling
+                for k in range(p["chain"]):
+                    w.net.inject(a, conflict_pkt(nth_name(desc.name, k + 1).upper(), 30 + k), ("10.0.0.60", 5353))
+                w.settle()
+                w.advance(5000)
+                t0 = w.now_ms + 1000
             for k in range(p["chain"]):
                 w.net.inject(a, conflict_pkt(nth_name(desc.name, k + 1), 10 + k), ("10.0.0.60", 5353))
             w.settle()
